@@ -99,6 +99,10 @@ def main():
         kh = list(kspec.get('quick', []))
         if tier == 'thorough':
             kh += kspec.get('thorough', [])
+        if os.environ.get('VERIF_DEV_SKIP_KANI') == '1':
+            # development experiments only (tools/run_harmless.py sets it for changes that touch no file a harness can reach: the
+            # Kani input is then the unchanged code); never set by the registered commands
+            kh = []
         futures = {}
         with cf.ThreadPoolExecutor(max_workers=12) as ex:
             for u in vunits:
@@ -149,6 +153,12 @@ def main():
                 missing = {x for x in missing if x not in r['functions'] and x.split('::')[-1] not in getattr(verus.generate, 'skipped', [])}
                 if missing:
                     undecided.append('unit %s: functions named in the registry are not in the unit: %s' % (u, sorted(missing)))
+            for m in in_filter:
+                if m.get('fallback'):
+                    undecided.append('unit %s: %s could not be extracted for verification (%s): in this run its contract is only assumed; the other functions of the unit were checked' % (u, m['qual'], m['fallback'][:200]))
+            for m in metas:
+                if m.get('fallback') and m not in in_filter:
+                    notes.append('unit %s: %s (outside this property) could not be extracted: %s' % (u, m['qual'], m['fallback'][:120]))
             lemma_fns = [n for n, f in r['functions'].items() if f.get('mode') == 'proof' and not n.split('::')[-1].startswith('axiom_')]
             wanted = [m['qual'] for m in in_filter] + (lemma_fns if (filt is None or P.get('count_lemmas', True)) else [])
             exp_unit = set(expected.get(u, []))
@@ -203,7 +213,7 @@ def main():
             else:
                 hit = {e['fn'] for e in c['errors'] if e['message'].startswith('assertion failed')}
                 for m in in_filter:
-                    if m['qual'] not in hit:
+                    if m['qual'] not in hit and not m.get('fallback'):
                         undecided.append('unit %s: VACUITY canary: assert(false) at the top of %s was NOT refuted (contradictory precondition or inconsistent assumed contracts)' % (u, m['qual']))
                 # deep canaries: the end of every loop body that carries a proof script (//@loopend) must be reachable too
                 c_lines = open(c['gen_path']).read().split('\n') if c.get('gen_path') and os.path.exists(c['gen_path']) else []
